@@ -219,6 +219,18 @@ pub fn run_one(tier: &str, check: &str, seed: u64, tmp: &Path, log: Option<&mut 
             let evs = crate::t15::generate(seed);
             with_runtime(crate::t15::run_events(seed, &evs, tmp, "g"))
         }
+        "t5p" => {
+            // a fresh pool per run: a dispatcher wedged by one schedule must not leak into the next
+            let (rt, _) = t5_env(tmp)?;
+            let acts = crate::t5::generate_acts(seed);
+            let dir = tmp.join(format!("t5p-{}-{seed:016x}", std::process::id()));
+            let out = rt.block_on(async {
+                let h = crate::t5::Harness::new(&dir).await?;
+                crate::t5::execute_acts(&h, seed, &acts).await
+            });
+            let _ = std::fs::remove_dir_all(&dir);
+            out
+        }
         "t5" => {
             let (rt, h) = t5_env(tmp)?;
             let clients = crate::t5::generate(seed);
@@ -309,6 +321,20 @@ pub fn run_list(
                 return crate::t7::run_batch(seed, 0, 0);
             };
             crate::t7::run_batch(seed, k, 1)
+        }
+        "t5p" => {
+            let (rt, _) = t5_env(tmp)?;
+            let acts: Vec<crate::t5::Act> = events
+                .iter()
+                .map(|e| serde_json::from_value(e.clone()))
+                .collect::<Result<_, _>>()?;
+            let dir = tmp.join(format!("t5p-{}-{seed:016x}-{tag}", std::process::id()));
+            let out = rt.block_on(async {
+                let h = crate::t5::Harness::new(&dir).await?;
+                crate::t5::execute_acts(&h, seed, &acts).await
+            });
+            let _ = std::fs::remove_dir_all(&dir);
+            out
         }
         "t5" => {
             let (rt, h) = t5_env(tmp)?;
